@@ -8,21 +8,86 @@ HERE = os.path.dirname(os.path.dirname(os.path.abspath(__file__)))
 sys.path.insert(0, HERE)
 sys.path.insert(0, "/repo/src")
 
+SIM = "deterministic simulation: "
 CLAIMS = {
-    "C01": ("exploration", "3.9, 4 (C01)",
+    "C01": ("exploration", "4 (C01)",
             "Seeded simulated histories on real cooler/h5py: every acknowledged create (all input forms, chunkings with "
             "empty chunks, dtypes, extra columns, filters, metadata) is re-read from disk after it and after every later "
             "operation on the file (neighbour creates, failed/faulted neighbour creates, cp/mv/ln) and on process-kill "
             "snapshots, and compared exactly with a reference model. The input quantifier itself is sampled (seeded "
             "model-based generation inside the simulator), hence exploration level.",
             "trusts h5py/libhdf5 and pandas; exactness of the model (integers and dyadic floats); sampling only",
-            "deterministic simulation: seeded operation histories + fault injection vs reference model (read-your-writes oracle)"),
-    "C15": ("exploration", "3.9, 4 (C15)",
+            SIM + "seeded operation histories + fault injection vs reference model (read-your-writes oracle)"),
+    "C02": ("exploration", "4 (C02)",
+            "After every operation of every simulated history (create, unordered ingestion, `cooler load`, merge, coarsen "
+            "incl. worker pools, zoomify, scool, chains of them, several collections per file) and on every process-kill "
+            "snapshot where the destination is recognised, every structural invariant of the schema is re-derived from the "
+            "raw HDF5 datasets by independent code; the run-length indexer's block size is a per-run knob (1..64 rows).",
+            "trusts h5py/libhdf5; the >1e6-pixel end-to-end crossing of the real block boundary runs in the thorough tier only",
+            SIM + "invariant checked after every event of seeded histories and on crash snapshots"),
+    "C06": ("exploration", "4 (C06)",
+            "Seeded record multisets partitioned into chunks (empty, repeating pixels, unsorted with ensure_sorted), "
+            "re-partitioned and re-ordered copies of the same multiset, merge buffer from 1 and fan-in from 1 (single-pass "
+            "and recursive merge), through the API and `cooler load`; results compared exactly with the model's per-pixel "
+            "sum; no temporary file may outlive a successful run even while a frame of the call is referenced.",
+            "chunk arrival order is a seeded permutation (the ingestion itself is single-process); trusts h5py/pandas",
+            SIM + "seeded histories vs exact aggregate model; arrival order and buffer/fan-in knobs randomised per run"),
+    "C07": ("exploration", "4 (C07)",
+            "merge is a history operation over whatever earlier operations left (empty/disjoint/identical supports, k>=1, "
+            "repeated inputs, nested merges feeding merges, mixed dtypes, aggregations, buffer from 1); every result equals "
+            "the exact model aggregate, so order-independence and associativity are checked on every nested merge; "
+            "incompatible inputs must be refused; an aggregate that does not fit must raise; the recorded total is checked.",
+            "merge output is never written into a file holding an input (libhdf5 refuses that; covered under C13 as a failure)",
+            SIM + "seeded operation histories vs exact aggregate model"),
+    "C08": ("exploration", "4 (C08)",
+            "coarsen_cooler / `cooler coarsen` with 1-4 simulated worker processes under SimPool/SimLock and the HDF5 "
+            "file-lock model, same-file and cross-file, every interleaving decided by the seeded scheduler (8 policies): "
+            "no reader/writer overlap, no deadlock, result equal to the model's block aggregation for every schedule, "
+            "chunk size and worker count; chains and merge/coarsen interleavings as histories.",
+            "workers are threads with dill-copied tasks (module globals shared); flock model validated against real processes",
+            SIM + "seeded schedules over real worker code (baton-passing threads) + reference model"),
+    "C09": ("exploration", "4 (C09)",
+            "zoomify_cooler / `cooler zoomify` with one or two consistent bases, arbitrary resolution sets (any order, "
+            "with/without bases, non-derivable members), 1-4 simulated workers reading and writing the same file under the "
+            "seeded scheduler: listing, each level equal to direct coarsening of a base, multires recognition, refusal of "
+            "non-derivable sets, no flock conflict, no deadlock.",
+            "two bases are generated as coarsenings of one ancestor (consistent data), as real use supplies them",
+            SIM + "seeded schedules over real worker code + reference model"),
+    "C11": ("exploration", "4 (C11)",
+            "balance_cooler and `cooler balance` under chunk sizes 1..nnz+1/None x builtin/eager/SimPool map, imap, "
+            "imap_unordered x 2-4 workers x scheduler policies (reverse, rotate, starve...) x use_lock: NaN mask identical, "
+            "weights/scale/var within 1e-9 of the unchunked sequential run, same sweep count (knife-edge relaxation only at "
+            "var~tol), a repeat with the same schedule bitwise identical, visit-once through the real split(), and agreement "
+            "with a dense numpy implementation of the documented procedure.",
+            "the dense reference is this repository's reading of the documented procedure; one known finding (ignore_diags=0)",
+            SIM + "seeded completion orders over real pipeline code vs sequential reference"),
+    "C13": ("fault_enumeration", "4 (C13)",
+            "Per workload (populated multi-collection file + one producer: ordered/unordered create, merge, coarsen with or "
+            "without workers, scool) every F1 placement (4 kinds x chunk x first/mid/last), every F2 index, every F4 open "
+            "index and every F6 task index is injected, F3 interrupts at stratified line events (all of them in the "
+            "thorough tier for small workloads), and the file is examined as a restarted process would see it after every "
+            "close (F5): destination not recognised unless complete, neighbours read back unchanged, then the operation is "
+            "re-issued fault-free and must succeed.",
+            "process kill modelled at close boundaries; byte-level faults below libhdf5 not modelled; workloads sampled, placements enumerated",
+            SIM + "fault enumeration (F1-F6) + crash-boundary snapshots over seeded workloads"),
+    "C15": ("exploration", "4 (C15)",
             "Seeded histories of create(a|w)/cp/mv/ln(hard, soft, external)/plant/failed creates over up to three files "
             "against an HDF5 link-tree reference model; after every step listing, recognition truth table, read-back of "
             "every path, link structure/object identity and planted unrelated content are compared with the model.",
             "trusts h5py/libhdf5; histories that libhdf5 itself cannot execute (link cycles, copies through external-link chains) are not generated",
-            "deterministic simulation: seeded operation histories (with failed operations as steps) vs reference model"),
+            SIM + "seeded operation histories (with failed operations as steps) vs reference model"),
+    "C17": ("exploration", "4 (C17)",
+            "create_scool as a history of append-creates: 1-5 cells with arbitrary names and matrices, shared or per-cell "
+            "bin tables; every cell reads back exactly, listing/recognition, shared bin datasets are the same HDF5 objects; "
+            "also after a later cell's creation fails (F1/F2/F3/F4), and after later appends/copies on the file.",
+            "the input quantifier itself is sampled; trusts h5py/libhdf5",
+            SIM + "seeded histories + fault injection on later cells vs reference model"),
+    "C18": ("exploration", "4 (C18)",
+            "rename_chroms through long-lived and fresh Cooler objects, partial maps, rotations, renaming back, chains, enum "
+            "and integer-encoded chromosome columns, through hard/soft aliases, interleaved with cp/ln/merge/coarsen/restart: "
+            "names everywhere, lookups by new name equal the old name's answers, everything else unchanged, aliases see it, copies do not.",
+            "only the object handed to rename_chroms must be fresh immediately; scool cells are not renamed (see DESIGN)",
+            SIM + "seeded operation histories vs reference model with object identity"),
 }
 
 NA = {
